@@ -491,6 +491,15 @@ func (h *httpServerHandler) handlePostResponse(ctx context.Context, w http.Respo
 	} else {
 		// Invalid response - neither error nor result.
 		h.logger.Errorf("Invalid JSON-RPC response: missing both result and error for ID: %v", response.ID)
+		var members map[string]json.RawMessage
+		_ = json.Unmarshal(rawMessage, &members)
+		_, hasResult := members["result"]
+		_, hasError := members["error"]
+		if !hasResult && !hasError {
+			// An id without method, result or error is no JSON-RPC message at all: refuse it.
+			http.Error(w, "Invalid JSON-RPC message", http.StatusBadRequest)
+			return
+		}
 		h.sendNotificationResponse(w, session)
 		return
 	}
